@@ -468,6 +468,13 @@ def execute(plan, ctx):
                         return
                     est = _resync(plan, ctx, k)
                     origin = "resync"
+            if fit_sets and plan["data"][k].get("x_from", k) in {plan["data"][j].get("x_from", j) for j in fit_sets if j != k}:
+                ctx.probe("refit_on_same_X_object_other_labels")
+            if cls in ("TO", "EG", "GS", "EGR") and fit_sets:
+                gnow = {r[1] for r in plan["data"][k]["rows"]}
+                gprev = {r[1] for r in plan["data"][fit_sets[-1]]["rows"]}
+                if gprev - gnow:
+                    ctx.probe("refit_drops_a_group")
             fitted_on = k
             nfits += 1
             fit_sets.append(k)
